@@ -260,13 +260,14 @@ theorem foldOk_model (ops : List Op) : ∀ (h : Header), noGhost h = true →
       rw [readsOk_model]
       simpa [modelReads] using ih1
 
-/-- the trace the model produces: per operation accepted?, ids, reads -/
-def modelTrace (h : Header) (ops : List Op) : List (Bool × List UInt8 × List (UInt8 × Option Bytes)) :=
-  (modelSteps h ops).1.map fun s => (s.res == .ok (), s.reads.ids, s.reads.gets)
-
-theorem modelReads_reads (h : Header) (extra : List UInt8) :
-    ((modelReads h extra).ids, (modelReads h extra).gets) = OM.reads (view h) extra := by
-  simp only [modelReads, Spec.OrderedMap.reads, ids_view, get_view]
+/-- the trace the model produces: per operation accepted?, ids, and GetExtension for every listed
+    id and the operation's id (nil and empty distinguished) -/
+def modelTrace (h : Header) : List Op → List (Bool × List UInt8 × List (UInt8 × Option Bytes))
+  | [] => []
+  | op :: ops =>
+    let r := modelStep h op
+    let ids := getExtensionIDs r.2
+    (r.1.isNone, ids, (ids ++ [op.id]).map fun id => (id, getExtension r.2 id)) :: modelTrace r.2 ops
 
 theorem trace_refines (ops : List Op) : ∀ (h : Header), noGhost h = true →
     modelTrace h ops = OM.trace (abs h) ops := by
@@ -275,13 +276,7 @@ theorem trace_refines (ops : List Op) : ∀ (h : Header), noGhost h = true →
   | cons op ops ih =>
     intro h hg
     obtain ⟨h1, h2, hg'⟩ := step_refines h op hg
-    have ih' := ih (modelStep h op).2 hg'
-    simp only [modelTrace] at ih' ⊢
-    rw [modelSteps_cons]
-    simp only [List.map_cons, Spec.OrderedMap.trace, ← h2, ← ih', ← view_abs]
-    congr 1
-    have hr := modelReads_reads (modelStep h op).2 [op.id]
-    rw [← hr, ← h1]
-    cases (modelStep h op).1 <;> rfl
+    simp only [modelTrace, Spec.OrderedMap.trace, ih (modelStep h op).2 hg', ← h2, ← h1, ← view_abs,
+      Spec.OrderedMap.reads, ids_view, get_view]
 
 end Rtp.Proofs.HeaderExt
